@@ -147,34 +147,47 @@ def require_mc(res, what):
         raise Inconclusive("%s: TLC did not complete: %s\n%s" % (what, res.get("error"), res["out"][-2500:]))
 
 
-def split_file(path, parts, d):
-    """Split an ndjson file into <= parts chunk files of whole lines. Returns [(chunkpath, first_line_no, nlines)]."""
+def split_file(path, parts, d, by_trace=False):
+    """Split an ndjson file into <= parts chunk files of whole lines (with by_trace: only where a new trace begins,
+    i.e. at lines whose ev is "scenario"). Returns [(chunkpath, first_line_no, nlines)]."""
     with open(path, "rb") as f:
         lines = f.readlines()
     n = len(lines)
     if n == 0:
         return []
     per = max(1, (n + parts - 1) // parts)
+    cuts = [0]
+    i = per
+    while i < n:
+        if by_trace:
+            while i < n and b'"ev":"scenario"' not in lines[i][:60]:
+                i += 1
+        if i < n:
+            cuts.append(i)
+        i += per
+    cuts.append(n)
     res = []
-    for i in range(0, n, per):
-        cp = os.path.join(d, "chunk%03d.ndjson" % (i // per))
+    for c, (a, b) in enumerate(zip(cuts, cuts[1:])):
+        if a == b:
+            continue
+        cp = os.path.join(d, "chunk%03d.ndjson" % c)
         with open(cp, "wb") as g:
-            g.writelines(lines[i:i + per])
-        res.append((cp, i + 1, len(lines[i:i + per])))
+            g.writelines(lines[a:b])
+        res.append((cp, a + 1, b - a))
     return res
 
 
 TUPLE = re.compile(r'^<<"(VIOL|DRIFT|INCOMPLETE|NOTE)"(.*)>>$')
 
 
-def tlc_trace(spec, cfg, tracefile, parts=NCPU, timeout=900, heap="3g", env=None):
+def tlc_trace(spec, cfg, tracefile, parts=NCPU, timeout=900, heap="3g", env=None, by_trace=False):
     """Run a trace spec (verdict + conformance) over tracefile, split in parallel chunks.
     The spec reads IOEnv.TRACE, prints <<"VIOL", clause, k, tag>> / <<"DRIFT", k, ...>> and must consume every line.
     Returns dict(lines, viol=[(clause, lineno, tag)], drift=[lineno...], wall_s)."""
     d = _stage(SPEC, None)
     t0 = time.time()
     try:
-        chunks = split_file(tracefile, parts, d)
+        chunks = split_file(tracefile, parts, d, by_trace)
         if not chunks:
             return {"lines": 0, "viol": [], "drift": [], "wall_s": 0.0, "notes": []}
 
